@@ -1,0 +1,98 @@
+// Copyright 2025 SCION Association
+//
+// Licensed under the Apache License, Version 2.0 (the "License");
+// you may not use this file except in compliance with the License.
+// You may obtain a copy of the License at
+//
+//   http://www.apache.org/licenses/LICENSE-2.0
+//
+// Unless required by applicable law or agreed to in writing, software
+// distributed under the License is distributed on an "AS IS" BASIS,
+// WITHOUT WARRANTIES OR CONDITIONS OF ANY KIND, either express or implied.
+// See the License for the specific language governing permissions and
+// limitations under the License.
+
+//go:build verif
+
+package router
+
+import (
+	"reflect"
+	"runtime"
+	"sync/atomic"
+	"unsafe"
+)
+
+// VerifPoolEvent is one PacketPool.Get / PacketPool.Put, as seen by the ownership-tracking hook
+// (model-based verification, build tag verif).
+type VerifPoolEvent struct {
+	// Seq is a process-wide sequence number. For Get it is taken after the packet left the pool's
+	// channel, for Put before the packet enters it, so the order of sequence numbers is a
+	// linearization of the pool operations on any one packet.
+	Seq uint64
+	// Op is "get" or "put".
+	Op string
+	// Pool identifies the pool (copies of a PacketPool share it).
+	Pool uintptr
+	// Pkt is the packet structure; Buf/BufLen delimit its buffer.
+	Pkt    *Packet
+	Buf    uintptr
+	BufLen int
+	// Func and Line identify the caller of Get / Put.
+	Func string
+	Line int
+}
+
+// VerifPoolTracer, when set, receives every pool operation synchronously in the calling
+// goroutine. While a tracer is installed, Put also poisons the packet (RawPacket = nil, buffer
+// filled with 0xDB) so that a stage that keeps using a packet it returned is exposed.
+var VerifPoolTracer atomic.Pointer[func(VerifPoolEvent)]
+
+var verifPoolSeq atomic.Uint64
+
+func verifPoolEvent(op string, p *PacketPool, pkt *Packet, f func(VerifPoolEvent)) {
+	ev := VerifPoolEvent{
+		Seq:  verifPoolSeq.Add(1),
+		Op:   op,
+		Pool: reflect.ValueOf(p.pool).Pointer(),
+		Pkt:  pkt,
+	}
+	if pkt != nil && pkt.buffer != nil {
+		ev.Buf = uintptr(unsafe.Pointer(pkt.buffer))
+		ev.BufLen = len(pkt.buffer)
+	}
+	if pc, _, line, ok := runtime.Caller(3); ok {
+		ev.Line = line
+		if fn := runtime.FuncForPC(pc); fn != nil {
+			ev.Func = fn.Name()
+		}
+	}
+	f(ev)
+}
+
+func verifPoolGet(p *PacketPool, pkt *Packet) {
+	f := VerifPoolTracer.Load()
+	if f == nil {
+		return
+	}
+	verifPoolEvent("get", p, pkt, *f)
+}
+
+func verifPoolPut(p *PacketPool, pkt *Packet) {
+	f := VerifPoolTracer.Load()
+	if f == nil {
+		return
+	}
+	verifPoolEvent("put", p, pkt, *f)
+	if pkt != nil {
+		pkt.RawPacket = nil
+		if pkt.buffer != nil {
+			for i := range pkt.buffer {
+				pkt.buffer[i] = 0xDB
+			}
+		}
+	}
+}
+
+// VerifPoolLen returns the number of packets currently inside the pool.
+func VerifPoolLen(p PacketPool) int { return len(p.pool) }
